@@ -15,6 +15,17 @@ from ..evidence import finish
 
 known_crash = dt.known_crash
 
+def known_listed(res, pid, fid):
+    from .. import known
+    kf = known.load()
+    if not known.is_listed(kf, pid, fid):
+        return False
+    msg = known.describe(kf, pid, fid)
+    if msg not in res.known:
+        res.known.append(msg)
+    res.count("known_finding_hits")
+    return True
+
 CATEGORY = {"stratifiable": ("Unable to stratify",),
             "grounded": ("Ungrounded", "Witness problem", "Argument in fact is not constant"),
             "typed": ("type", "Ambiguous", "overload", "record", "Mismatching arity", "Couldn't assign")}
@@ -45,7 +56,12 @@ def run(tier, replay=None):
             else:
                 cases.append((label_of(j), j["fam"], j["prog"], j["verdict"], j["why"], j["fam"]))
     if quick:
-        ids = sorted(rng.sample(range(4 ** 9), 700))
+        # which graphs of the 4^9 are looked at is the glue's choice (seeded): half uniform (almost all have a cycle through a
+        # strict edge), half sparse (each edge absent with probability 0.6) so that both verdicts are well represented
+        ids = set(rng.sample(range(4 ** 9), 350))
+        while len(ids) < 700:
+            ids.add(sum((0 if rng.random() < 0.6 else rng.choice([1, 1, 2, 3])) * 4 ** k for k in range(9)))
+        ids = sorted(ids)
         add(sg.run_static(wd, "enum", res, g2=True, g3_list=ids, g3_both=True, shapes=True))
     else:
         add(sg.run_static(wd, "enum", res, g2=True, shapes=True))
@@ -73,16 +89,20 @@ def run(tier, replay=None):
         facts = None
         if c[1] == "gen":
             facts = os.path.join(d, "facts"); render.write_facts(c[2], {}, facts)
-        r = dt.run_souffle(c[0], d, text=text, facts=facts, expect=c[3])
+        r = dt.run_souffle(c[0], d, text=text, facts=facts, expect=c[3], args=("--no-preprocessor",))
         shutil.rmtree(d, ignore_errors=True)
         return r
     import concurrent.futures as cf
     with cf.ThreadPoolExecutor(NCPU) as ex:
         runs = list(ex.map(one, range(len(texts))))
     judged = []
+    case_by_label = {c[0]: c for c in by_text.values()}
     for r in runs:
         if r.rc not in (0, 1) and known_crash(res, "C13", r.stderr):
             continue
+        c = case_by_label[r.label]
+        if c[3] == "reject" and c[4].get("aggcycle") and r.rc == 0 and known_listed(res, "C13", "mutual-aggregate-cyclic-dependency-fatal"):
+            continue            # signature (b) of the recorded finding: mutually dependent aggregates accepted
         judged.append(r)
     verdicts = dt.validate(judged, wd, "trace", res)
     text_of = {by_text[t][0]: t for t in texts}
@@ -133,7 +153,7 @@ def do_replay(res, wd, path):
     facts = None
     if j.get("gen"):
         facts = os.path.join(d, "facts"); render.write_facts(j["program"], {}, facts)
-    r = dt.run_souffle(j["label"], d, text=j["text"], facts=facts, expect=j["expect"])
+    r = dt.run_souffle(j["label"], d, text=j["text"], facts=facts, expect=j["expect"], args=("--no-preprocessor",))
     v = dt.validate([r], wd, "replay_trace", res)[r.label]
     print("replay %s: expect %s; %s; DriverTrace accepted: %s" % (j["label"], j["expect"], dt.describe(r), v))
     if v is False and not known_crash(res, "C13", r.stderr):
